@@ -91,7 +91,7 @@ package arch
 //@     invariant [C11 C12] accumulator-fresh: entries == nil || fresh(entries)
 //@     invariant [C06] no-failure-so-far: !ghostFlag("failed")
 //@     invariant [C07] no-clock-so-far: implies(!old(info.MTime.IsZero()), !ghostFlag("clockRead"))
-//@     invariant [C11 C12] plan-still-fresh: !inlined() || nfpm.SpecPlanOK(info.Contents, !old(info.MTime.IsZero()))
+//@     invariant [C01 C04 C05 C11 C12] plan-still-fresh: !inlined() || nfpm.SpecPlanOK(info.Contents, !old(info.MTime.IsZero()))
 //
 //@ spec func archPkgver(epoch, version, prerelease, release string) string {
 //@     v := archlinuxVersion(version, prerelease) + "-" + strconv.Itoa(pkgrelOf(release))
